@@ -26,7 +26,7 @@ Definition known_broken (k : cls) : bool :=
    does not accept (there is no such object) *)
 Definition op_claimed (o : op cls) : bool :=
   match o with
-  | MulClass k po _ =>
+  | MulClass k po _ _ =>
       negb (known_broken k) &&
       match po with
       | None => true
@@ -34,6 +34,9 @@ Definition op_claimed (o : op cls) : bool :=
       end
   | _ => true
   end.
+(* consistently sampled: no multiplication of differently sampled operands *)
+Definition consistent (o : op cls) : bool :=
+  match o with MulType _ _ m => negb m | MulClass _ _ _ m => negb m | _ => true end.
 Definition is_fft (o : op cls) : bool :=
   match o with Propagate Fft => true | _ => false end.
 (* a step that never hands a tilt to a wavefront that had none *)
@@ -49,8 +52,8 @@ Definition tdoc (w : wtype) (d : option wtype) : toutcome :=
   match d with Some t => TYields t | None => TRaises ETypeError w end.
 Definition tstep (w : wtype) (o : op cls) : toutcome :=
   match o with
-  | MulType p _ => tdoc w (doc_mul w p)
-  | MulClass k po _ => tdoc w (doc_mul w (eff_ptype k po))
+  | MulType p _ _ => tdoc w (doc_mul w p)
+  | MulClass k po _ _ => tdoc w (doc_mul w (eff_ptype k po))
   | Propagate m => tdoc w (doc_prop m w)
   | Fresh s => TYields (ty s)
   end.
